@@ -89,6 +89,25 @@ def handle (req : Json) : Except String Json := do
     let back := match parts with | .ok ps => diskRead ps.flatten | .error e => .error e
     let hyp := ls.all (fun l => noNl l && l.all isScalar)
     pure (obj [("parts", exJ (ofList textJ) parts), ("read", exJ linesJ back), ("hyp", Json.bool hyp)])
+  | "diskhist" =>
+    -- a history of DiskSink / DiskSource operations over several paths (phase 6)
+    let ops ← (← arr (← field req "ops")).mapM (fun o => do
+      let k ← str (← field o "o")
+      let p ← nat (← field o "p")
+      match k with
+      | "w" => do
+        let ls ← texts (← field o "lines")
+        let b ← opt nat (fieldD o "batch" Json.null)
+        pure (DiskOp.write p b ls)
+      | "k" => do pure (DiskOp.readk p (← nat (← field o "k")))
+      | _ => pure (DiskOp.read p))
+    let outJ : DiskOut → Json := fun
+      | .wrote => Json.str "wrote"
+      | .nofile => Json.str "nofile"
+      | .lines r => obj [("lines", exJ linesJ r)]
+    let hyp := ops.all diskOpOk
+    pure (obj [("run", exJ (ofList outJ) (diskRun List.flatten [] ops)),
+               ("spec", ofList outJ (diskSpecRun [] ops)), ("hyp", Json.bool hyp)])
   | "diskread" =>
     let bs ← natList (← field req "bytes")
     pure (obj [("read", exJ linesJ (diskRead bs))])
@@ -97,6 +116,20 @@ def handle (req : Json) : Except String Json := do
     let d ← parseDialect req
     let hdr ← bool (fieldD req "header" (Json.bool false))
     pure (obj [("cur", exJ csvJ (csvReaderCur d hdr ls)), ("fix", exJ csvJ (csvReaderFix d hdr ls))])
+  | "csvlabel" =>
+    -- CsvReader(has_header, delimiter) | LabelRows(label): (features, label) per row (phase 6)
+    let ls ← texts (← field req "lines")
+    let d ← parseDialect req
+    let hdr ← bool (fieldD req "header" (Json.bool false))
+    let rj ← field req "ref"
+    let ref ← match rj.getObjVal? "idx" with
+      | .ok i => do pure (LabelRef.idx (← int i))
+      | .error _ => do pure (LabelRef.name (← natList (← field rj "name")))
+    let names ← opt texts (fieldD req "names" Json.null)
+    let n ← nat (← field req "n")
+    let pairJ : List Text × Text → Json := fun x => Json.arr #[linesJ x.1, textJ x.2]
+    pure (obj [("read", exJ (ofOpt (ofList pairJ)) (csvLabelRead d hdr ref ls)),
+               ("col", ofOpt ofNat (labelCol names n ref))])
   | "csvwrite" =>
     -- spec side: rows of (quote?, field) → lines of the RFC 4180 writer, and whether the theorem's hypotheses hold
     let delim ← nat (← field req "delim")
